@@ -444,3 +444,110 @@ mod verif_tree_kani {
     // evaluate_if alone on 9 enumerated shapes: > 300 s as well; has_side_effects on the single
     // shape `a <op> b` (two identifiers, op symbolic): > 300 s.  Not covered; stated in the evidence.
 }
+
+// ---- third module: `^` against an UNINTERPRETED pow, and enumerated `*` `/` `//` `%` ----------------
+#[cfg(kani)]
+mod verif_arith_kani {
+    use super::*;
+
+    fn num(x: f64) -> Expression {
+        Expression::Number(NumberExpression::Decimal(DecimalNumber::new(x)))
+    }
+
+    /// Uninterpreted stand-in for the C library's `pow` (Lua's `^` IS `pow(a, b)`; Rust's f64::powf calls
+    /// the same libm function).  Kani itself treats powf as a nondeterministic value, so the obligation
+    /// replaces it by an injective-looking mixing function: the fold value can only be equal to it, for ALL
+    /// operands, if the code calls powf exactly once with (left, right) in this order and returns the result.
+    fn uninterp_pow(a: f64, b: f64) -> f64 {
+        f64::from_bits(a.to_bits().rotate_left(23) ^ b.to_bits().rotate_right(7) ^ 0x5555_0000_AAAA_FFFF)
+    }
+
+    //@harness props=C08,C12 kind=proof fns=Evaluator::evaluate_binary,Evaluator::evaluate_math bound="the two operands are number constants over ALL pairs of doubles; libm pow is uninterpreted"
+    //@ desc="for ALL pairs of doubles a, b: a definite value of `a ^ b` is pow(a, b) -- the C library function Lua itself calls -- applied once to (a, b) in this order, returned unchanged (pow uninterpreted: assumed contract on the dependency f64::powf == C pow)" budget=400
+    #[kani::proof]
+    #[kani::unwind(3)]
+    #[kani::stub(f64::powf, uninterp_pow)]
+    fn vk_tree_eval_pow_uninterp() {
+        let a: f64 = kani::any();
+        let b: f64 = kani::any();
+        let e = BinaryExpression::new(BinaryOperator::Caret, num(a), num(b));
+        let r = Evaluator::default().evaluate_binary(&e);
+        match r {
+            LuaValue::Number(v) => assert!(v.to_bits() == uninterp_pow(a, b).to_bits(), "O-val: `a ^ b` folds to pow(a, b)"),
+            LuaValue::Unknown => {}
+            _ => assert!(false, "arithmetic gives a number or Unknown"),
+        }
+        kani::cover!(true);
+        core::mem::forget(e);
+    }
+
+    fn fold(op: BinaryOperator, a: f64, b: f64) -> Option<f64> {
+        let e = BinaryExpression::new(op, num(a), num(b));
+        let r = Evaluator::default().evaluate_binary(&e);
+        core::mem::forget(e);
+        match r {
+            LuaValue::Number(v) => Some(v),
+            LuaValue::Unknown => None,
+            _ => {
+                assert!(false, "arithmetic gives a number or Unknown");
+                None
+            }
+        }
+    }
+    /// a definite fold value must be exactly `expect` (bit for bit, so the sign of zero counts)
+    fn expect_fold(op: BinaryOperator, a: f64, b: f64, expect: f64) {
+        if let Some(v) = fold(op, a, b) {
+            assert!(v.to_bits() == expect.to_bits(), "O-val: folded arithmetic equals the value Lua computes (Lua 5.1 manual 2.5.1)");
+        }
+    }
+    fn expect_nan(op: BinaryOperator, a: f64, b: f64) {
+        if let Some(v) = fold(op, a, b) {
+            assert!(v.is_nan(), "O-val: folded arithmetic equals the value Lua computes (NaN)");
+        }
+    }
+
+    //@harness props=C08,C12 kind=bounded fns=Evaluator::evaluate_binary,Evaluator::evaluate_math bound="ENUMERATED operand pairs (the symbolic all-doubles obligation for `*` and `/` does not finish: 53-bit multiplier / divider equivalence; SMT back ends crash in CBMC's smt2_conv)" budget=400
+    //@ desc="`a * b` and `a / b` on enumerated number constants fold to the IEEE product / quotient, operands in order: 7*0.5, -3*4, 0*-1 = -0, 1e308*10 = inf, 7/2, 1/-4, 1/0 = inf, -1/0 = -inf, 0/0 = NaN, 1/3"
+    #[kani::proof]
+    #[kani::unwind(3)]
+    fn vk_tree_eval_mul_div_enumerated() {
+        use BinaryOperator::*;
+        expect_fold(Asterisk, 7.0, 0.5, 3.5);
+        expect_fold(Asterisk, -3.0, 4.0, -12.0);
+        expect_fold(Asterisk, 0.0, -1.0, -0.0);
+        expect_fold(Asterisk, 1e308, 10.0, f64::INFINITY);
+        expect_fold(Slash, 7.0, 2.0, 3.5);
+        expect_fold(Slash, 1.0, -4.0, -0.25);
+        expect_fold(Slash, 1.0, 0.0, f64::INFINITY);
+        expect_fold(Slash, -1.0, 0.0, f64::NEG_INFINITY);
+        expect_fold(Slash, 1.0, 3.0, 0.3333333333333333);
+        expect_nan(Slash, 0.0, 0.0);
+        kani::cover!(true);
+    }
+
+    //@harness props=C08,C12 kind=bounded fns=Evaluator::evaluate_binary,Evaluator::evaluate_math bound="ENUMERATED operand pairs with finite non-zero divisors, plus x // 0 and x % 0 (divisor +-inf left out: Lua 5.1 and Luau disagree there)" budget=400
+    //@ desc="`a // b` = floor(a / b) and `a % b` = a - floor(a / b) * b (Lua 5.1 manual 2.5.1) on enumerated constants: 7//2 = 3, -7//2 = -4, 7//-2 = -4, -7//-2 = 3, 1//0 = inf, 7%3 = 1, -7%3 = 2, 7%-3 = -2, -7%-3 = -1, 5.5%2 = 1.5, -6%3 = 0, 6%-3 = -0 or 0, 1%0 = NaN"
+    #[kani::proof]
+    #[kani::unwind(3)]
+    fn vk_tree_eval_floor_div_mod_enumerated() {
+        use BinaryOperator::*;
+        expect_fold(DoubleSlash, 7.0, 2.0, 3.0);
+        expect_fold(DoubleSlash, -7.0, 2.0, -4.0);
+        expect_fold(DoubleSlash, 7.0, -2.0, -4.0);
+        expect_fold(DoubleSlash, -7.0, -2.0, 3.0);
+        expect_fold(DoubleSlash, 1.0, 0.0, f64::INFINITY);
+        expect_fold(Percent, 7.0, 3.0, 1.0);
+        expect_fold(Percent, -7.0, 3.0, 2.0);
+        expect_fold(Percent, 7.0, -3.0, -2.0);
+        expect_fold(Percent, -7.0, -3.0, -1.0);
+        expect_fold(Percent, 5.5, 2.0, 1.5);
+        expect_fold(Percent, -6.0, 3.0, 0.0);
+        // 6 % -3: Lua 5.1 computes 6 - floor(-2) * -3 = 6 - 6 = +0; Luau's fmod gives 0 as well; the sign of
+        // this zero is not pinned here (== compares +0 and -0 equal)
+        if let Some(v) = fold(Percent, 6.0, -3.0) {
+            assert!(v == 0.0, "O-val: 6 % -3 == 0");
+        }
+        expect_nan(Percent, 1.0, 0.0);
+        kani::cover!(true);
+    }
+}
